@@ -258,6 +258,12 @@ def check_config(config: dict) -> None:
                 )
 
     # engine checks
+    n_ens_engs = len(config["simulation"]["ensemble_engines"])
+    if n_ens_engs < n_ens:
+        raise TOMLConfigError(
+            f"ensemble_engines lists engines for {n_ens_engs} ensembles,"
+            f" {n_ens} are needed!"
+        )
     unique_engines = []
     for engines in config["simulation"]["ensemble_engines"]:
         for engine in engines:
